@@ -167,6 +167,7 @@ def main(tier):
         UnitDatabase.PopSingleton()
     # registering a category never yields a default unit / default value that violates its own constraints
     db = fresh_db()
+    db.AddUnitBase("T", "unit of another quantity type", "tu")
     UnitDatabase.PushSingleton(db)
     cons = []
     try:
@@ -195,14 +196,17 @@ def main(tier):
                         pdv = db.GetCategoryInfo("k").default_value
                         for over in ({"min_value": pdv + 1.0}, {"max_value": pdv - 1.0}, {"min_value": pdv - 1.0}, {"max_value": pdv + 1.0},
                                      {"min_value": pdv + 1.0, "max_value": pdv + 5.0}, {"min_value": pdv, "is_min_exclusive": True},
-                                     {"max_value": pdv, "is_max_exclusive": True}, {}):
+                                     {"max_value": pdv, "is_max_exclusive": True}, {},
+                                     # ... and with a default unit / valid units of its own: another unit of the type, a legacy spelling, a unit of another type
+                                     {"default_unit": "du"}, {"default_unit": "1000ft3", "valid_units": ["1000ft3", "du"]}, {"default_unit": "tu"}, {"valid_units": ["tu"]},
+                                     {"valid_units": ["du", "tu"]}, {"default_unit": "du", "valid_units": ["du", "sc"]}):
                             o2 = P.outcome(lambda: db.AddCategory("k2", from_category="k", override=True, **over))
                             if o2[0] != "ok":
                                 continue
                             du2 = db.GetDefaultUnit("k2")
                             s2 = P.outcome(Scalar, "k2")
                             cons.append({"op": "CatConsistent", "call": "AddCategory(from_category=<%r>, %r)" % (kw0, over), "du_registered": du2 in db.GetUnits("Q"),
-                                         "du_in_valid": True, "scalar_built": s2[0] == "ok", "scalar_valid": s2[0] == "ok" and bool(s2[1].IsValid()),
+                                         "du_in_valid": all(v_ in db.GetUnits("Q") for v_ in (db.GetCategoryInfo("k2").valid_units or [])), "scalar_built": s2[0] == "ok", "scalar_valid": s2[0] == "ok" and bool(s2[1].IsValid()),
                                          "scalar_unit_is_du": s2[0] == "ok" and s2[1].GetUnit() == du2,
                                          "check_default": P.outcome(db.CheckCategoryUnit, "k2", du2)[0] == "ok"})
     finally:
